@@ -58,8 +58,23 @@ def rule_r1(ctx):
                         if c is not None and c.get("k") == "bin" and c["op"] in ("==", "!=") and \
                                 any(x.get("k") == "mem" and x["f"] == "p" and x.get("rec") == rec for x in (c["lhs"], c["rhs"])):
                             mine[b.id] = 0 if c["op"] == "==" else 1
+                    def guarded_in_callers(f=f):
+                        cs = [(c_, cs_) for (c_, cs_) in prog.callers().get(f.name, []) if c_.file == f.file and not c_.cfg_failed]
+                        if not cs:
+                            return False
+                        for c_, cs_ in cs:
+                            gm = {}
+                            for bid, k, atom, val in G.edge_facts(c_):
+                                if atom.get("k") == "bin" and atom["op"] in ("==", "!=") and ((atom["op"] == "==") == val) and \
+                                        any(x.get("k") == "mem" and x["f"] == "p" and x.get("rec") == rec for x in (atom["lhs"], atom["rhs"])):
+                                    gm[bid] = k
+                            if not gm or not G.dominated(c_, (cs_.b, cs_.i), gm):
+                                return False
+                        return True
                     if mine and G.dominated(f, (s.b, s.i), mine):
                         r.ob(f, "s->p cleared under s->p == p")
+                    elif guarded_in_callers():
+                        r.ob(f, "s->p cleared in a helper every caller of which tested s->p == p")
                     else:
                         ctx.fail(r, f, "s->p cleared for a foreign pipe", s.line, "%s clears s->p without testing s->p == p" % f.name)
 
